@@ -1,9 +1,7 @@
 import EaselModel.Alphabet.GuessModel
-/-! # C08 — elementary facts about the model of `esl_abc_GuessAlphabet` (the 2 % thresholds are `double` comparisons and
-stay outside the theorems) -/
+/-! # C08 — what `esl_abc_GuessAlphabet` guarantees (theorems about the integer form `guessZ`; the `Float` form is tied to it
+and to the code by the differential run) and what the counting loop of `esl_sq_GuessAlphabet` counts -/
 namespace EaselModel.Alphabet.Guess
-
-def total (ct : List Int) : Int := (List.range 26).foldl (fun acc i => acc + ct.getD i 0) 0
 
 /-- the status is eslOK exactly when a type was assigned, and the type is one of unknown/RNA/DNA/amino -/
 theorem guess_status (ct : List Int) :
@@ -20,5 +18,365 @@ theorem guess_small (ct : List Int) (h : total ct ≤ 10) : guessAlphabet ct = (
   have : (List.range 26).foldl (fun acc i => acc + ct.getD i 0) 0 ≤ 10 := h
   simp only [this, if_true]
   simp
+
+/-- `ct[]` holds counts: non-negative and below 2^31 (`esl_sq_GuessAlphabet` stops at 10001 letters) -/
+def Counts (ct : List Int) : Prop := ∀ l, 0 ≤ ct.getD l 0 ∧ ct.getD l 0 < 2147483648
+
+def sumOf (ct : List Int) (letters : List Nat) : Int := (letters.map fun l => ct.getD l 0).sum
+/-- how many of `letters` occur -/
+def seen (ct : List Int) (letters : List Nat) : Nat := (letters.filter fun l => decide (ct.getD l 0 > 0)).length
+
+theorem tally_go (ct : List Int) (h : Counts ct) (letters : List Nat) (acc : Int × Nat) :
+    letters.foldl (fun (acc : Int × Nat) l => let x := wrap32 (ct.getD l 0); if x > 0 then (acc.1 + x, acc.2 + 1) else acc) acc
+      = (acc.1 + sumOf ct letters, acc.2 + seen ct letters) := by
+  induction letters generalizing acc with
+  | nil => simp [sumOf, seen]
+  | cons l rest ih =>
+    have hw : wrap32 (ct.getD l 0) = ct.getD l 0 := by
+      have := h l; unfold wrap32; omega
+    simp only [List.foldl_cons, hw]
+    rw [ih]
+    by_cases hp : ct.getD l 0 > 0
+    · simp only [hp, if_true, sumOf, seen, List.map_cons, List.sum_cons, List.filter_cons, decide_true, List.length_cons]
+      refine Prod.ext ?_ ?_ <;> simp only [] <;> omega
+    · have h0 : ct.getD l 0 = 0 := by have := (h l).1; omega
+      simp only [hp, if_false, sumOf, seen, List.map_cons, List.sum_cons, List.filter_cons, h0]
+      refine Prod.ext ?_ ?_ <;> simp
+
+theorem tally_spec (ct : List Int) (h : Counts ct) (letters : List Nat) :
+    tally ct letters = (sumOf ct letters, seen ct letters) := by
+  unfold tally; rw [tally_go ct h]; simp
+
+theorem seen_cons (ct : List Int) (l : Nat) (rest : List Nat) :
+    seen ct (l :: rest) = (if ct.getD l 0 > 0 then 1 else 0) + seen ct rest := by
+  unfold seen
+  by_cases h : ct.getD l 0 > 0
+  · rw [List.filter_cons, if_pos (decide_eq_true h), if_pos h, List.length_cons]; omega
+  · rw [List.filter_cons, if_neg (by simpa using h), if_neg h]; omega
+
+theorem seen_nil (ct : List Int) : seen ct [] = 0 := rfl
+
+theorem seen3 (ct : List Int) (a b c : Nat) (h : seen ct [a, b, c] ≥ 3) :
+    ct.getD a 0 > 0 ∧ ct.getD b 0 > 0 ∧ ct.getD c 0 > 0 := by
+  rw [seen_cons, seen_cons, seen_cons, seen_nil] at h
+  by_cases ha : ct.getD a 0 > 0 <;> by_cases hb : ct.getD b 0 > 0 <;> by_cases hc : ct.getD c 0 > 0 <;>
+    simp only [ha, hb, hc, if_true, if_false] at h <;> omega
+
+theorem seen3_le (ct : List Int) (a b c : Nat) : seen ct [a, b, c] ≤ 3 := by
+  rw [seen_cons, seen_cons, seen_cons, seen_nil]
+  split <;> split <;> split <;> omega
+
+theorem seen1 (ct : List Int) (h : Counts ct) (l : Nat) : seen ct [l] = if ct.getD l 0 ≠ 0 then 1 else 0 := by
+  have := (h l).1
+  rw [seen_cons, seen_nil]
+  by_cases e : ct.getD l 0 = 0
+  · rw [if_neg (by omega), if_neg (by simpa using e)]
+  · rw [if_pos (by omega), if_pos e]
+
+theorem sumOf_aaonly_nonneg (ct : List Int) (h : Counts ct) : 0 ≤ sumOf ct aaonly := by
+  unfold sumOf aaonly
+  simp only [List.map_cons, List.map_nil, List.sum_cons, List.sum_nil]
+  have hnn := fun l => (h l).1
+  have := hnn 4; have := hnn 5; have := hnn 8; have := hnn 9; have := hnn 11; have := hnn 14; have := hnn 15
+  have := hnn 16; have := hnn 25
+  omega
+
+theorem sumOf_allcanon (ct : List Int) : sumOf ct allcanon = ct.getD 0 0 + ct.getD 2 0 + ct.getD 6 0 := by
+  simp [sumOf, allcanon]; omega
+
+/-- **never answers on ten residues or fewer** (no hypothesis on the counts) -/
+theorem guessZ_small (ct : List Int) (h : total ct ≤ 10) : guessZ ct = 0 := by
+  unfold guessZ; simp only [h, if_true]
+
+theorem guessZ_le (ct : List Int) : guessZ ct ≤ 3 := by
+  unfold guessZ; simp only []; repeat' split
+  all_goals omega
+
+/-- the decision list of `esl_abc_GuessAlphabet` on counts, in terms of plain sums and numbers of letters that occur -/
+theorem guessZ_eq (ct : List Int) (h : Counts ct) : guessZ ct =
+    if total ct ≤ 10 then 0
+    else if total ct > 2000 ∧ ct.getD 13 0 = total ct then 2
+    else if sumOf ct aaonly > 0 then 3
+    else if 50 * (total ct - (sumOf ct allcanon + ct.getD 19 0 + ct.getD 13 0)) ≤ total ct ∧ seen ct allcanon + seen ct [19] = 4 then 2
+    else if 50 * (total ct - (sumOf ct allcanon + ct.getD 20 0 + ct.getD 13 0)) ≤ total ct ∧ seen ct allcanon + seen ct [20] = 4 then 1
+    else if 50 * (total ct - (sumOf ct aaonly + sumOf ct allcanon + sumOf ct aacanon + ct.getD 13 0 + ct.getD 19 0 + ct.getD 23 0)) ≤ total ct ∧
+        sumOf ct aacanon > sumOf ct allcanon ∧
+        seen ct aaonly + seen ct allcanon + seen ct aacanon + seen ct [13] + seen ct [19] ≥ 15 then 3
+    else 0 := by
+  unfold guessZ
+  rw [tally_spec ct h, tally_spec ct h, tally_spec ct h, seen1 ct h 19, seen1 ct h 20, seen1 ct h 13]
+
+/-- **answer DNA** ⇒ more than 10 residues, and either the all-N special case (> 2000 residues, all of them N), or: no
+    amino-only letter (EFIJLOPQZ) occurs, at most 2 % of the residues are something other than A, C, G, T, N, and each
+    of A, C, G, T occurs -/
+theorem guessZ_dna (ct : List Int) (h : Counts ct) (hg : guessZ ct = 2) :
+    total ct > 10 ∧
+    ((total ct > 2000 ∧ ct.getD 13 0 = total ct) ∨
+     (sumOf ct aaonly = 0 ∧
+      50 * (total ct - (ct.getD 0 0 + ct.getD 2 0 + ct.getD 6 0 + ct.getD 19 0 + ct.getD 13 0)) ≤ total ct ∧
+      ct.getD 0 0 > 0 ∧ ct.getD 2 0 > 0 ∧ ct.getD 6 0 > 0 ∧ ct.getD 19 0 > 0)) := by
+  rw [guessZ_eq ct h] at hg
+  have h1 := sumOf_aaonly_nonneg ct h
+  have hs := sumOf_allcanon ct
+  have h3le : seen ct allcanon ≤ 3 := seen3_le ct 0 2 6
+  by_cases c1 : total ct ≤ 10
+  · rw [if_pos c1] at hg; omega
+  rw [if_neg c1] at hg
+  by_cases c2 : total ct > 2000 ∧ ct.getD 13 0 = total ct
+  · exact ⟨by omega, Or.inl c2⟩
+  rw [if_neg c2] at hg
+  by_cases c3 : sumOf ct aaonly > 0
+  · rw [if_pos c3] at hg; omega
+  rw [if_neg c3] at hg
+  by_cases c4 : 50 * (total ct - (sumOf ct allcanon + ct.getD 19 0 + ct.getD 13 0)) ≤ total ct ∧ seen ct allcanon + seen ct [19] = 4
+  · obtain ⟨d1, d2⟩ := c4
+    have hx : seen ct [19] ≤ 1 := by rw [seen1 ct h 19]; split <;> omega
+    have hall := seen3 ct 0 2 6 (by unfold allcanon at d2 h3le; omega)
+    have ht : ct.getD 19 0 > 0 := by
+      have h19 := (h 19).1
+      have : seen ct [19] = 1 := by omega
+      rw [seen1 ct h 19] at this
+      by_cases e : ct.getD 19 0 = 0
+      · rw [if_neg (fun hne => hne e)] at this; omega
+      · omega
+    exact ⟨by omega, Or.inr ⟨by omega, by rw [hs] at d1; omega, hall.1, hall.2.1, hall.2.2, ht⟩⟩
+  rw [if_neg c4] at hg
+  by_cases c5 : 50 * (total ct - (sumOf ct allcanon + ct.getD 20 0 + ct.getD 13 0)) ≤ total ct ∧ seen ct allcanon + seen ct [20] = 4
+  · rw [if_pos c5] at hg; omega
+  rw [if_neg c5] at hg
+  split at hg <;> omega
+
+/-- **answer RNA** ⇒ more than 10 residues, no amino-only letter occurs, at most 2 % of the residues are something other
+    than A, C, G, U, N, and each of A, C, G, U occurs -/
+theorem guessZ_rna (ct : List Int) (h : Counts ct) (hg : guessZ ct = 1) :
+    total ct > 10 ∧ sumOf ct aaonly = 0 ∧
+    50 * (total ct - (ct.getD 0 0 + ct.getD 2 0 + ct.getD 6 0 + ct.getD 20 0 + ct.getD 13 0)) ≤ total ct ∧
+    ct.getD 0 0 > 0 ∧ ct.getD 2 0 > 0 ∧ ct.getD 6 0 > 0 ∧ ct.getD 20 0 > 0 := by
+  rw [guessZ_eq ct h] at hg
+  have h1 := sumOf_aaonly_nonneg ct h
+  have hs := sumOf_allcanon ct
+  have h3le : seen ct allcanon ≤ 3 := seen3_le ct 0 2 6
+  by_cases c1 : total ct ≤ 10
+  · rw [if_pos c1] at hg; omega
+  rw [if_neg c1] at hg
+  by_cases c2 : total ct > 2000 ∧ ct.getD 13 0 = total ct
+  · rw [if_pos c2] at hg; omega
+  rw [if_neg c2] at hg
+  by_cases c3 : sumOf ct aaonly > 0
+  · rw [if_pos c3] at hg; omega
+  rw [if_neg c3] at hg
+  by_cases c4 : 50 * (total ct - (sumOf ct allcanon + ct.getD 19 0 + ct.getD 13 0)) ≤ total ct ∧ seen ct allcanon + seen ct [19] = 4
+  · rw [if_pos c4] at hg; omega
+  rw [if_neg c4] at hg
+  by_cases c5 : 50 * (total ct - (sumOf ct allcanon + ct.getD 20 0 + ct.getD 13 0)) ≤ total ct ∧ seen ct allcanon + seen ct [20] = 4
+  · obtain ⟨d1, d2⟩ := c5
+    have hx : seen ct [20] ≤ 1 := by rw [seen1 ct h 20]; split <;> omega
+    have hall := seen3 ct 0 2 6 (by unfold allcanon at d2 h3le; omega)
+    have ht : ct.getD 20 0 > 0 := by
+      have h20 := (h 20).1
+      have : seen ct [20] = 1 := by omega
+      rw [seen1 ct h 20] at this
+      by_cases e : ct.getD 20 0 = 0
+      · rw [if_neg (fun hne => hne e)] at this; omega
+      · omega
+    exact ⟨by omega, by omega, by rw [hs] at d1; omega, hall.1, hall.2.1, hall.2.2, ht⟩
+  rw [if_neg c5] at hg
+  split at hg <;> omega
+
+/-- **answer amino** ⇒ more than 10 residues, and either an amino-only letter (EFIJLOPQZ) occurs, or: at most 2 % of the
+    residues are outside ACG + DHKMRSVWY + N, T, X, the letters DHKMRSVWY outnumber A, C, G, and at least 15 different
+    letters among ACG, DHKMRSVWY, N, T occur -/
+theorem guessZ_amino (ct : List Int) (h : Counts ct) (hg : guessZ ct = 3) :
+    total ct > 10 ∧
+    (sumOf ct aaonly > 0 ∨
+     (50 * (total ct - (sumOf ct allcanon + sumOf ct aacanon + ct.getD 13 0 + ct.getD 19 0 + ct.getD 23 0)) ≤ total ct ∧
+      sumOf ct aacanon > sumOf ct allcanon ∧
+      seen ct aaonly + seen ct allcanon + seen ct aacanon + seen ct [13] + seen ct [19] ≥ 15)) := by
+  rw [guessZ_eq ct h] at hg
+  have h1 := sumOf_aaonly_nonneg ct h
+  by_cases c1 : total ct ≤ 10
+  · rw [if_pos c1] at hg; omega
+  rw [if_neg c1] at hg
+  by_cases c2 : total ct > 2000 ∧ ct.getD 13 0 = total ct
+  · rw [if_pos c2] at hg; omega
+  rw [if_neg c2] at hg
+  by_cases c3 : sumOf ct aaonly > 0
+  · exact ⟨by omega, Or.inl c3⟩
+  rw [if_neg c3] at hg
+  by_cases c4 : 50 * (total ct - (sumOf ct allcanon + ct.getD 19 0 + ct.getD 13 0)) ≤ total ct ∧ seen ct allcanon + seen ct [19] = 4
+  · rw [if_pos c4] at hg; omega
+  rw [if_neg c4] at hg
+  by_cases c5 : 50 * (total ct - (sumOf ct allcanon + ct.getD 20 0 + ct.getD 13 0)) ≤ total ct ∧ seen ct allcanon + seen ct [20] = 4
+  · rw [if_pos c5] at hg; omega
+  rw [if_neg c5] at hg
+  split at hg
+  · rename_i hd
+    obtain ⟨d1, d2, d3⟩ := hd
+    exact ⟨by omega, Or.inr ⟨by omega, d2, d3⟩⟩
+  · omega
+
+theorem seen_le_length (ct : List Int) (letters : List Nat) : seen ct letters ≤ letters.length := by
+  unfold seen; exact List.length_filter_le _ _
+
+theorem seen_aaonly_zero (ct : List Int) (h : Counts ct) (h0 : sumOf ct aaonly = 0) : seen ct aaonly = 0 := by
+  unfold sumOf aaonly at h0
+  simp only [List.map_cons, List.map_nil, List.sum_cons, List.sum_nil] at h0
+  have hnn := fun l => (h l).1
+  have := hnn 4; have := hnn 5; have := hnn 8; have := hnn 9; have := hnn 11; have := hnn 14; have := hnn 15
+  have := hnn 16; have := hnn 25
+  unfold aaonly
+  simp only [seen_cons, seen_nil]
+  rw [if_neg (by omega), if_neg (by omega), if_neg (by omega), if_neg (by omega), if_neg (by omega), if_neg (by omega),
+    if_neg (by omega), if_neg (by omega), if_neg (by omega)]
+
+/-- the third documented rule ("≥ 98 % canonical amino acids or X, at least 15 different residues, DHKMRSVWY outnumber
+    ACG") can never fire on counts: without an amino-only letter at most 3 + 9 + 1 + 1 = 14 different letters are counted,
+    and with one the giveaway rule has already answered. So the answer is amino **iff** an amino-only letter occurs (in a
+    sample of more than 10 residues that is not the all-N special case). -/
+theorem guessZ_amino_iff (ct : List Int) (h : Counts ct) :
+    guessZ ct = 3 ↔ total ct > 10 ∧ ¬ (total ct > 2000 ∧ ct.getD 13 0 = total ct) ∧ sumOf ct aaonly > 0 := by
+  have h1 := sumOf_aaonly_nonneg ct h
+  constructor
+  · intro hg
+    rw [guessZ_eq ct h] at hg
+    by_cases c1 : total ct ≤ 10
+    · rw [if_pos c1] at hg; omega
+    rw [if_neg c1] at hg
+    by_cases c2 : total ct > 2000 ∧ ct.getD 13 0 = total ct
+    · rw [if_pos c2] at hg; omega
+    rw [if_neg c2] at hg
+    by_cases c3 : sumOf ct aaonly > 0
+    · exact ⟨by omega, c2, c3⟩
+    rw [if_neg c3] at hg
+    have hz := seen_aaonly_zero ct h (by omega)
+    have h2 : seen ct allcanon ≤ 3 := seen_le_length ct allcanon
+    have h3 : seen ct aacanon ≤ 9 := seen_le_length ct aacanon
+    have h4 : seen ct [13] ≤ 1 := seen_le_length ct [13]
+    have h5 : seen ct [19] ≤ 1 := seen_le_length ct [19]
+    split at hg
+    · omega
+    · split at hg
+      · omega
+      · split at hg
+        · rename_i hd; omega
+        · omega
+  · intro ⟨hn, hN, hp⟩
+    rw [guessZ_eq ct h, if_neg (by omega), if_neg hN, if_pos hp]
+
+/-- … and an amino-only letter always decides for amino (unless the sample is small or the all-N special case applies) -/
+theorem guessZ_aaonly (ct : List Int) (h : Counts ct) (hn : total ct > 10) (hN : ¬ (total ct > 2000 ∧ ct.getD 13 0 = total ct))
+    (hp : sumOf ct aaonly > 0) : guessZ ct = 3 := by
+  rw [guessZ_eq ct h, if_neg (by omega), if_neg hN, if_pos hp]
+
+/-! ## the counting loop of `esl_sq_GuessAlphabet` -/
+
+/-- byte `c` is counted as letter number `l` (0 = A … 25 = Z), case-insensitively -/
+def isLetter (c l : Nat) : Bool := decide (c = 65 + l) || decide (c = 97 + l)
+
+theorem letterIdx_cases (c : Nat) (hc : c < 256) :
+    (letterIdx c < 0 ∨ letterIdx c ≥ 26) ∧ (∀ l, l < 26 → isLetter c l = false) ∨
+    (∃ l : Nat, l < 26 ∧ letterIdx c = (l : Int) ∧ isLetter c l = true ∧ ∀ l', l' ≠ l → l' < 26 → isLetter c l' = false) := by
+  unfold letterIdx isLetter
+  by_cases h1 : c ≥ 128
+  · left; simp only [h1, if_true]; refine ⟨by omega, fun l hl => by simp; omega⟩
+  · by_cases h2 : 97 ≤ c ∧ c ≤ 122
+    · right; refine ⟨c - 97, by omega, by simp only [h1, h2, if_false, if_true, and_self]; omega, by simp; omega,
+        fun l' hne hl' => by simp; omega⟩
+    · simp only [h1, h2, if_false]
+      by_cases h3 : 65 ≤ c ∧ c ≤ 90
+      · right; refine ⟨c - 65, by omega, by omega, by simp; omega, fun l' hne hl' => by simp; omega⟩
+      · left; refine ⟨by omega, fun l hl => by simp; omega⟩
+
+/-- number of letters (A–Z, a–z) in a byte string -/
+def nLetters (seq : List Nat) : Nat := (seq.filter fun c => decide (65 ≤ c ∧ c ≤ 90) || decide (97 ≤ c ∧ c ≤ 122)).length
+
+theorem getD_setI (l : List Int) (j : Nat) (v : Int) (i : Nat) (hj : j < l.length) :
+    (l.set j v).getD i 0 = if i = j then v else l.getD i 0 := by
+  rw [List.getD_eq_getElem?_getD, List.getElem?_set]
+  by_cases h : j = i
+  · subst h; simp [hj]
+  · have h' : ¬ i = j := fun e => h e.symm
+    simp [h, h', List.getD_eq_getElem?_getD]
+
+/-- as long as the cutoff is not reached, every counter ends up increased by the number of occurrences of its letter -/
+theorem sqCount_spec (seq : List Nat) (hb : ∀ c ∈ seq, c < 256) :
+    ∀ (ct : List Int) (n : Nat), ct.length = 26 → n + nLetters seq ≤ 10000 →
+      (sqCount seq ct n).length = 26 ∧
+      ∀ l, l < 26 → (sqCount seq ct n).getD l 0 = ct.getD l 0 + ((seq.filter fun c => isLetter c l).length : Int) := by
+  induction seq with
+  | nil => intro ct n hl _; exact ⟨hl, fun l _ => by simp [sqCount]⟩
+  | cons c cs ih =>
+    intro ct n hl hn
+    have hcb := hb c (by simp)
+    have ih' := ih (fun c' hc' => hb c' (by simp [hc']))
+    rcases letterIdx_cases c hcb with ⟨hout, hno⟩ | ⟨l0, hl0, hidx, hyes, hother⟩
+    · have hnl : nLetters (c :: cs) = nLetters cs := by
+        have : (decide (65 ≤ c ∧ c ≤ 90) || decide (97 ≤ c ∧ c ≤ 122)) = false := by
+          unfold letterIdx at hout
+          by_cases h1 : c ≥ 128
+          · simp; omega
+          · by_cases h2 : 97 ≤ c ∧ c ≤ 122
+            · simp only [h1, h2, if_false, if_true, and_self] at hout; omega
+            · simp only [h1, h2, if_false] at hout; simp; omega
+        unfold nLetters; rw [List.filter_cons, this]; rfl
+      unfold sqCount
+      simp only [hout, if_true]
+      obtain ⟨g1, g2⟩ := ih' ct n hl (by omega)
+      refine ⟨g1, fun l hl' => ?_⟩
+      rw [g2 l hl', List.filter_cons, hno l hl']; rfl
+    · have hnl : nLetters (c :: cs) = nLetters cs + 1 := by
+        have : (decide (65 ≤ c ∧ c ≤ 90) || decide (97 ≤ c ∧ c ≤ 122)) = true := by
+          unfold isLetter at hyes; simp at hyes ⊢; omega
+        unfold nLetters; rw [List.filter_cons, this]; rfl
+      unfold sqCount
+      have hin : ¬ (letterIdx c < 0 ∨ letterIdx c ≥ 26) := by omega
+      have htn : (letterIdx c).toNat = l0 := by omega
+      simp only [hin, if_false, htn]
+      rw [if_neg (by omega)]
+      obtain ⟨g1, g2⟩ := ih' (ct.set l0 (ct.getD l0 0 + 1)) (n + 1) (by simpa using hl) (by omega)
+      refine ⟨g1, fun l hl' => ?_⟩
+      rw [g2 l hl', getD_setI _ _ _ _ (by omega), List.filter_cons]
+      by_cases e : l = l0
+      · subst e; simp only [if_true, hyes, List.length_cons]; omega
+      · rw [if_neg e, hother l e hl']; rfl
+
+/-- `esl_sq_GuessAlphabet` on a sequence of at most 10000 letters classifies exactly the case-insensitive letter counts -/
+theorem sqCount_counts (seq : List Nat) (hb : ∀ c ∈ seq, c < 256) (hn : nLetters seq ≤ 10000) :
+    ∀ l, l < 26 → (sqCount seq (List.replicate 26 0) 0).getD l 0 = ((seq.filter fun c => isLetter c l).length : Int) := by
+  intro l hl
+  have := (sqCount_spec seq hb (List.replicate 26 0) 0 (by simp) (by omega)).2 l hl
+  rw [this]
+  have : (List.replicate 26 (0 : Int)).getD l 0 = 0 := by
+    rw [List.getD_eq_getElem?_getD, List.getElem?_replicate]; split <;> rfl
+  rw [this]; omega
+
+theorem counts_of_all (ct : List Int) (h : ∀ v ∈ ct, 0 ≤ v ∧ v < 2147483648) : Counts ct := by
+  intro l
+  rw [List.getD_eq_getElem?_getD]
+  cases hl : ct[l]? with
+  | none => simp
+  | some v => simp only [Option.getD_some]; exact h v (List.mem_of_getElem? hl)
+
+theorem filter_letter_le (seq : List Nat) (l : Nat) (hl : l < 26) :
+    (seq.filter fun c => isLetter c l).length ≤ nLetters seq := by
+  unfold nLetters
+  rw [← List.countP_eq_length_filter, ← List.countP_eq_length_filter]
+  apply List.countP_mono_left
+  intro c _ hc
+  unfold isLetter at hc
+  simp at hc ⊢
+  omega
+
+/-- the counters `esl_sq_GuessAlphabet` hands to `esl_abc_GuessAlphabet` are counts (so the guarantees above apply) -/
+theorem sqCount_Counts (seq : List Nat) (hb : ∀ c ∈ seq, c < 256) (hn : nLetters seq ≤ 10000) :
+    Counts (sqCount seq (List.replicate 26 0) 0) := by
+  intro l
+  by_cases hl : l < 26
+  · rw [sqCount_counts seq hb hn l hl]
+    have := filter_letter_le seq l hl
+    omega
+  · have hlen := (sqCount_spec seq hb (List.replicate 26 0) 0 (by simp) (by omega)).1
+    rw [List.getD_eq_getElem?_getD, List.getElem?_eq_none (by omega)]
+    simp
 
 end EaselModel.Alphabet.Guess
